@@ -45,6 +45,17 @@ type E int
 
 var eType = reflect.TypeOf(E(0))
 
+// F is the element type of the "float" configuration: float64 elements with the
+// unusual values (NaN, the zeros, the infinities), and the DEFAULT constructors
+// (New, cmp.Compare) for the comparator-based kinds.
+type F float64
+
+var fType = reflect.TypeOf(F(0))
+
+var floatElems = []F{F(math.NaN()), F(math.Inf(-1)), -2.5, -1, F(math.Copysign(0, -1)), 0, 0.5, 1, 2, 3, 7, 1e300, F(math.Inf(1))}
+
+func felem(x int) F { return floatElems[mod(x, len(floatElems))] }
+
 // Kinds are the 21 containers.
 var Kinds = []string{
 	"arraylist", "singlylinkedlist", "doublylinkedlist",
@@ -79,6 +90,7 @@ func Unordered(kind string) bool {
 
 // Cfg is a container configuration.
 type Cfg struct {
+	Elem  string `json:"elem,omitempty"` // "" = int elements (type E), "float" = float64 elements (type F) and default constructors
 	Kind  string `json:"kind"`
 	Cmp   string `json:"cmp,omitempty"`   // nat | rev (comparator kinds)
 	Cap   int    `json:"cap,omitempty"`   // ring capacity (>= 1)
@@ -99,8 +111,60 @@ func cmpE(id string) func(a, b E) int {
 	return natE
 }
 
+// newFloat builds a container of float64 elements with the default constructors.
+func newFloat(c Cfg) any {
+	switch c.Kind {
+	case "arraylist":
+		return arraylist.New[F]()
+	case "singlylinkedlist":
+		return singlylinkedlist.New[F]()
+	case "doublylinkedlist":
+		return doublylinkedlist.New[F]()
+	case "hashset":
+		return hashset.New[F]()
+	case "treeset":
+		return treeset.New[F]()
+	case "linkedhashset":
+		return linkedhashset.New[F]()
+	case "arraystack":
+		return arraystack.New[F]()
+	case "linkedliststack":
+		return linkedliststack.New[F]()
+	case "arrayqueue":
+		return arrayqueue.New[F]()
+	case "linkedlistqueue":
+		return linkedlistqueue.New[F]()
+	case "circularbuffer":
+		return circularbuffer.New[F](c.Cap)
+	case "priorityqueue":
+		return priorityqueue.New[F]()
+	case "hashmap":
+		return hashmap.New[F, F]()
+	case "treemap":
+		return treemap.New[F, F]()
+	case "linkedhashmap":
+		return linkedhashmap.New[F, F]()
+	case "hashbidimap":
+		return hashbidimap.New[F, F]()
+	case "treebidimap":
+		return treebidimap.New[F, F]()
+	case "redblacktree":
+		return redblacktree.New[F, F]()
+	case "avltree":
+		return avltree.New[F, F]()
+	case "btree":
+		return btree.New[F, F](c.Order)
+	case "binaryheap":
+		return binaryheap.New[F]()
+	}
+	panic("refl: unknown kind " + c.Kind)
+}
+
 // New builds a fresh container (a pointer, as an any).
 func New(c Cfg) any {
+	if c.Elem == "float" {
+		return newFloat(c)
+	}
 	f := cmpE(c.Cmp)
 	switch c.Kind {
 	case "arraylist":
@@ -249,14 +313,40 @@ type Result struct {
 
 // Runner drives one container.
 type Runner struct {
-	Cfg Cfg
-	Obj any
-	v   reflect.Value
+	Cfg   Cfg
+	Obj   any
+	v     reflect.Value
+	elemT reflect.Type
 }
 
 func NewRunner(c Cfg) *Runner {
 	o := New(c)
-	return &Runner{Cfg: c, Obj: o, v: reflect.ValueOf(o)}
+	r := &Runner{Cfg: c, Obj: o, v: reflect.ValueOf(o), elemT: eType}
+	if c.Elem == "float" {
+		r.elemT = fType
+	}
+	return r
+}
+
+// elemValue synthesises an element of the runner's element type.
+func (r *Runner) elemValue(x int) reflect.Value {
+	if r.elemT == fType {
+		return reflect.ValueOf(felem(x))
+	}
+	return reflect.ValueOf(elem(x))
+}
+
+// toInt reads an integer out of an int- or float-kinded value (callbacks get both).
+func toInt(v reflect.Value) int {
+	switch v.Kind() {
+	case reflect.Float64, reflect.Float32:
+		f := v.Float()
+		if f != f || f > 1e9 || f < -1e9 {
+			return 0
+		}
+		return int(f)
+	}
+	return int(v.Int())
 }
 
 // Size calls Size() on the container.
@@ -298,6 +388,8 @@ func (r *Runner) norm1(method string, v reflect.Value) any {
 		return v.Bool()
 	case reflect.Int, reflect.Int64:
 		return v.Int()
+	case reflect.Float64:
+		return fmt.Sprint(v.Float())
 	case reflect.String:
 		s := v.String()
 		if method == "String" && (unordered || treeShaped(r.Cfg.Kind)) {
@@ -338,6 +430,16 @@ func (r *Runner) norm1(method string, v reflect.Value) any {
 			}
 			if unordered || (r.Cfg.Kind == "binaryheap" || r.Cfg.Kind == "priorityqueue") && method == "ToJSON" {
 				sort.Ints(xs)
+			}
+			return fmt.Sprint(xs)
+		}
+		if v.Type().Elem() == fType {
+			xs := make([]float64, v.Len())
+			for i := range xs {
+				xs[i] = v.Index(i).Float()
+			}
+			if unordered {
+				sort.Slice(xs, func(i, j int) bool { return cmp.Compare(xs[i], xs[j]) < 0 })
 			}
 			return fmt.Sprint(xs)
 		}
@@ -497,7 +599,7 @@ func (r *Runner) driveIterator(it reflect.Value, calls []string, rw *raw) []stri
 			log = append(log, fmt.Sprintf("%s=%v", name, valid))
 		case "Value", "Key", "Index":
 			if valid {
-				log = append(log, fmt.Sprintf("%s=%v", name, m.Call(nil)[0].Int()))
+				log = append(log, fmt.Sprintf("%s=%v", name, m.Call(nil)[0].Interface()))
 			}
 		case "Node":
 			if valid {
@@ -512,8 +614,8 @@ func (r *Runner) driveIterator(it reflect.Value, calls []string, rw *raw) []stri
 // synth builds one argument of type pt.
 func (r *Runner) synth(pt reflect.Type, rw *raw, size int, s Step) (reflect.Value, bool) {
 	switch {
-	case pt == eType:
-		return reflect.ValueOf(elem(rw.next())), true
+	case pt == r.elemT:
+		return r.elemValue(rw.next()), true
 	case pt.Kind() == reflect.Int:
 		return reflect.ValueOf(dom.WildIndex(rw.next(), size)), true
 	case pt.Kind() == reflect.Slice && pt.Elem().Kind() == reflect.Uint8:
@@ -535,7 +637,7 @@ func (r *Runner) synth(pt reflect.Type, rw *raw, size int, s Step) (reflect.Valu
 			n := mod(k, 6)
 			vals := make([]reflect.Value, n)
 			for i := range vals {
-				vals[i] = reflect.ValueOf(elem(rw.next()))
+				vals[i] = r.elemValue(rw.next())
 			}
 			add.Call(vals)
 		}
@@ -549,7 +651,7 @@ func (r *Runner) synth(pt reflect.Type, rw *raw, size int, s Step) (reflect.Valu
 			}
 			var out []reflect.Value
 			if g.Type().NumIn() == 1 {
-				out = g.Call([]reflect.Value{reflect.ValueOf(elem(rw.next()))})
+				out = g.Call([]reflect.Value{r.elemValue(rw.next())})
 			} else {
 				out = g.Call(nil)
 			}
@@ -570,7 +672,7 @@ func (r *Runner) makeFunc(ft reflect.Type, rw *raw) reflect.Value {
 	return reflect.MakeFunc(ft, func(in []reflect.Value) []reflect.Value {
 		xs := make([]int, len(in))
 		for i, v := range in {
-			xs[i] = int(v.Int())
+			xs[i] = toInt(v)
 		}
 		x, y := 0, 0
 		if len(xs) > 0 {
@@ -598,12 +700,20 @@ func (r *Runner) makeFunc(ft reflect.Type, rw *raw) reflect.Value {
 					res = mod(x+y, 3) == mod(b, 3)
 				}
 				out[i] = reflect.ValueOf(res)
-			case ot == eType:
-				v := E(mod(a, 4)*y + mod(b, 3)*x + i)
+			case ot == eType || ot == fType:
+				v := mod(a, 4)*y + mod(b, 3)*x + i
 				if mod(a, 3) == 0 {
-					v = E(mod(int(v), 4)) // many-to-one
+					v = mod(v, 4) // many-to-one
 				}
-				out[i] = reflect.ValueOf(v)
+				if ot == fType {
+					if mod(a, 7) == 0 {
+						out[i] = reflect.ValueOf(felem(v)) // may be NaN or an infinity
+					} else {
+						out[i] = reflect.ValueOf(F(v))
+					}
+				} else {
+					out[i] = reflect.ValueOf(E(v))
+				}
 			case ot.Kind() == reflect.Int: // comparator
 				c := cmp.Compare(x, y)
 				switch mod(a, 3) {
